@@ -507,6 +507,49 @@ theorem gauss_log_potential (r0 r1 : ℝ) (rest b x : List ℝ) (h01 : r0 < r1)
         mul_le_mul_of_nonneg_left (by rw [abs_sub_comm]; exact hl) (abs_nonneg _)
     _ = |F| / (4 * (i : ℝ) ^ 3) := by ring
 
+/-- **the uniform-grid potential depends linearly on the charge density** (same statement as `potential_linear` for the uniform construction) -/
+theorem potential_uniform_linear (α β : ℝ) (r0 r1 : ℝ) (rest rho1 rho2 : List ℝ)
+    (h1 : rho1.length = rest.length + 2) (h2 : rho2.length = rest.length + 2) :
+    potentialUniform (r0 :: r1 :: rest) (List.zipWith (fun x y => α * x + β * y) rho1 rho2) =
+      List.zipWith (fun x y => α * x + β * y) (potentialUniform (r0 :: r1 :: rest) rho1) (potentialUniform (r0 :: r1 :: rest) rho2) := by
+  unfold potentialUniform
+  rw [poissonRhs_linear α β rho1 rho2 (by omega)]
+  have hc : (fdUniform (r0 :: r1 :: rest)).length = rest.length + 2 := fdUniform_length r0 r1 rest
+  have l1 := poissonRhs_length rho1
+  have l2 := poissonRhs_length rho2
+  set c := fdUniform (r0 :: r1 :: rest)
+  set b1 := poissonRhs rho1
+  set b2 := poissonRhs rho2
+  have hw : (withRhs c b1).length = c.length := withRhs_length c b1 (by omega)
+  have e0 := withRhs_eq_setRhs c b1 (List.zipWith (fun x y => α * x + β * y) b1 b2) (by omega) (by simp; omega)
+  have e1 : withRhs c b1 = setRhs (withRhs c b1) b1 := withRhs_eq_setRhs c b1 b1 (by omega) rfl
+  have e2 : withRhs c b2 = setRhs (withRhs c b1) b2 := withRhs_eq_setRhs c b1 b2 (by omega) (by omega)
+  have key := solve_linear α β (withRhs c b1) b1 b2 (by omega) (by omega)
+  rw [← e0, ← e2, ← e1] at key
+  exact key
+
+/-- **monotone dependence on the charge, uniform construction**: `ρ₁ ≤ ρ₂` nodewise implies `φ₁ ≤ φ₂` nodewise -/
+theorem potential_uniform_mono_charge (r0 r1 : ℝ) (rest rho1 rho2 : List ℝ) (h01 : r0 < r1)
+    (h1 : rho1.length = rest.length + 2) (h2 : rho2.length = rest.length + 2)
+    (hle : ∀ p ∈ List.zip rho1 rho2, p.1 ≤ p.2) :
+    ∀ p ∈ List.zip (potentialUniform (r0 :: r1 :: rest) rho1) (potentialUniform (r0 :: r1 :: rest) rho2), p.1 ≤ p.2 := by
+  have hlin := potential_uniform_linear 1 (-1) r0 r1 rest rho1 rho2 h1 h2
+  have hneg : ∀ v ∈ List.zipWith (fun x y => 1 * x + -1 * y) rho1 rho2, v ≤ 0 := by
+    intro v hv
+    rw [← List.map_uncurry_zip_eq_zipWith] at hv
+    obtain ⟨p, hp, rfl⟩ := List.mem_map.mp hv
+    have := hle p hp
+    simp only [Function.uncurry]; linarith
+  have hm := (potential_uniform_monotone r0 r1 rest _ h01 (by simp [h1, h2]) hneg).2
+  rw [hlin] at hm
+  intro p hp
+  have : (fun x y : ℝ => 1 * x + -1 * y) p.1 p.2 ∈
+      List.zipWith (fun x y => 1 * x + -1 * y) (potentialUniform (r0 :: r1 :: rest) rho1) (potentialUniform (r0 :: r1 :: rest) rho2) := by
+    rw [← List.map_uncurry_zip_eq_zipWith]
+    exact List.mem_map.mpr ⟨p, hp, rfl⟩
+  have := hm _ this
+  simp only at this; linarith
+
 /-! ### non-vacuity -/
 example : GridOk [0, 1, 3] := by
   refine ⟨by simp [List.pairwise_cons], fun _ => by simp⟩
